@@ -10,6 +10,8 @@ import StorageModel.C03.Model
                        groups (link collection ↔ B.members), rcB (ref-counted link collection ↔ B.rcA)
     store A1:          plain child of A (`ext1`), code (unique, non-nullable),
                        pals (link collection owned by the CHILD store ↔ B.palsOf)
+    store A2:          EXTENDED child of A (`ext2`), colour (nullable unique index of its own);
+                       creates, updates and deletes through it
     store B "owners":  label (nullable unique), things (back-references), members / palsOf / rcA
 
   Follows boltz/store_crud.go (Create / Update / DeleteById / processDeleteConstraints /
@@ -184,6 +186,8 @@ structure EntA where
   boss : Option Bytes
   /-- `ext1/code` (`none`: the entity has no child-store data) -/
   code : Option Bytes
+  /-- `ext2/colour` (`none`: no data of the extended child store) -/
+  colour : Option Bytes
   deriving DecidableEq, Repr
 
 structure EntB where
@@ -208,14 +212,17 @@ structure State where
   uCode : Map Bytes Id
   uLabel : Map Bytes Id
   sRoles : Map Bytes (List Id)
+  /-- `u/indexes/things/colour`: the extended child store's own unique index -/
+  uColour : Map Bytes Id
   deriving Repr
 
-def State.empty : State := ⟨false, false, [], [], .empty, .empty, .empty, [], [], [], [], [], []⟩
+def State.empty : State := ⟨false, false, [], [], .empty, .empty, .empty, [], [], [], [], [], [], []⟩
 
 /-- the entity exists in store A / B / has child-store data -/
 def State.aEx (s : State) (j : Id) : Bool := (s.a.lookup j).isSome
 def State.bEx (s : State) (j : Id) : Bool := (s.b.lookup j).isSome
 def State.cEx (s : State) (j : Id) : Bool := ((s.a.lookup j).bind (·.code)).isSome
+def State.xEx (s : State) (j : Id) : Bool := ((s.a.lookup j).bind (·.colour)).isSome
 
 structure ValsA where
   name : Bytes
@@ -244,6 +251,10 @@ inductive Op
   | deleteA (id : Id)
   /-- `A1.Create`: parent fields through the parent context, then the child's field and links -/
   | createA1 (id : Id) (v : ValsA) (code : Bytes) (pals : List Id)
+  /-- `A2.Create` (extended child store) -/
+  | createA2 (id : Id) (v : ValsA) (colour : Bytes)
+  /-- `A2.Update`: parent fields and `colour` through the child store; `cc`: the checker selects `colour` -/
+  | updateA2 (id : Id) (v : ValsA) (colour : Bytes) (chk : Option ChkA) (cc : Bool)
   | createB (id : Id) (label : Option Bytes)
   /-- `chk`: none = nil checker, some b = checker selecting `label` iff b -/
   | updateB (id : Id) (label : Option Bytes) (chk : Option Bool)
@@ -339,6 +350,9 @@ def evBoss : Option EntA → Bytes
 def evCode : Option EntA → Bytes
   | some e => e.code.getD []
   | none => []
+def evColour : Option EntA → Bytes
+  | some e => e.colour.getD []
+  | none => []
 
 def captureA (s : State) (id : Id) : Captured :=
   let e := s.a.lookup id
@@ -376,7 +390,7 @@ def createA (s : State) (id : Id) (v : ValsA) : Except Err State :=
   if id = [] then .error .other
   else if (s.a.lookup id).isSome then .error .exists
   else do
-    let e : EntA := ⟨v.name, v.alias, setOf v.roles, v.owner, v.dep, v.boss, none⟩
+    let e : EntA := ⟨v.name, v.alias, setOf v.roles, v.owner, v.dep, v.boss, none, none⟩
     let s1 := { s with hasA := true, a := s.a.insert id e }
     let s2 ← setGroups s1 id v.groups                      -- an error stops the create
     afterUpdateA true Captured.none s2 id
@@ -400,13 +414,61 @@ def createA1 (s : State) (id : Id) (v : ValsA) (code : Bytes) (pals : List Id) :
   else if s.cEx id then .error .exists
   else do
     let cap := if (s.a.lookup id).isSome then captureA s id else Captured.none
-    let e : EntA := ⟨v.name, v.alias, setOf v.roles, v.owner, v.dep, v.boss, some code⟩
+    -- data of the other child store stays in the entity bucket
+    let e : EntA := ⟨v.name, v.alias, setOf v.roles, v.owner, v.dep, v.boss, some code, (s.a.lookup id).bind (·.colour)⟩
     let s1 := { s with hasA := true, a := s.a.insert id e }
     let s2 ← setGroups s1 id v.groups
     let s2' ← setPals s2 id pals
     let s3 ← afterUpdateA true cap s2' id                  -- parent context first
     let uc ← uniqueAfter true false [] code id s3.uCode   -- then the child's own index
     pure { s3 with uCode := uc }
+
+/-- `A2.Create`: like `A1.Create` (only the extended child's own data is checked for existence; over an
+    existing parent the parent's indexed values are captured first), then the child's own unique index -/
+def createA2 (s : State) (id : Id) (v : ValsA) (colour : Bytes) : Except Err State :=
+  if id = [] then .error .other
+  else if s.xEx id then .error .exists
+  else do
+    let cap := if (s.a.lookup id).isSome then captureA s id else Captured.none
+    let e : EntA := ⟨v.name, v.alias, setOf v.roles, v.owner, v.dep, v.boss, (s.a.lookup id).bind (·.code), some colour⟩
+    let s1 := { s with hasA := true, a := s.a.insert id e }
+    let s2 ← setGroups s1 id v.groups
+    let s3 ← afterUpdateA true cap s2 id                   -- parent context first
+    let uc ← uniqueAfter true true [] colour id s3.uColour -- then the child's own index (nullable)
+    pure { s3 with uColour := uc }
+
+/-- `SetString("colour", …)` under the checker -/
+def newColour (chk : Option ChkA) (cc : Bool) (colour oc : Bytes) : Bytes :=
+  if (match chk with | none => true | some _ => cc) then colour else oc
+
+/-- `A2.Update`.  `FindById` of an extended store falls back to the parent's bucket, but the update
+    needs the child's own bucket: without `ext2` data it is not-found.  Parent fields are written
+    through the parent context under the same checker; parent constraints first, then the child's. -/
+def updateA2 (s : State) (id : Id) (v : ValsA) (colour : Bytes) (chk : Option ChkA) (cc : Bool) : Except Err State :=
+  if id = [] then .error .other
+  else match s.a.lookup id with
+    | none => .error .notFound
+    | some old => match old.colour with
+      | none => .error .notFound
+      | some oc => do
+        let cap := captureA s id
+        let s1 := { s with a := s.a.insert id { persistFields old v chk with colour := some (newColour chk cc colour oc) } }
+        let s2 ← if proceed chk (·.groups) then setGroups s1 id v.groups else pure s1
+        let s3 ← afterUpdateA false cap s2 id
+        let uc ← uniqueAfter false true oc (newColour chk cc colour oc) id s3.uColour
+        pure { s3 with uColour := uc }
+
+/-- the rounds of the extended child store and of the parent store, then `DeleteEntity` -/
+def deleteA0Tail (s1 : State) (e : EntA) (id : Id) : Except Err State := do
+  -- the extended child store: its `FindById` finds the parent entity, so this round always runs
+  let tx ← beforeDeleteA s1 id
+  let s1x := { tx with uColour := uniqueBeforeDelete (evColour (some e)) tx.uColour }
+  -- then the parent's own processDeleteConstraints and cleanupLinks
+  let s2 ← beforeDeleteA s1x id
+  let s3 := { s2 with g := s2.g.cleanFwd s2.bEx id, rc := s2.rc.cleanFwd s2.bEx id }
+  -- DeleteEntity: the entity bucket with everything in it
+  pure { s3 with a := s3.a.erase id, g := { s3.g with fwd := s3.g.fwd.erase id },
+                 p := { s3.p with fwd := s3.p.fwd.erase id }, rc := { s3.rc with fwd := s3.rc.fwd.erase id } }
 
 /-- `DeleteById` on store A when the cascade loops of `boss` find nothing (left) to delete -/
 def deleteA0 (s : State) (id : Id) : Except Err State :=
@@ -420,12 +482,7 @@ def deleteA0 (s : State) (id : Id) : Except Err State :=
           let t ← beforeDeleteA s id
           pure { t with uCode := uniqueBeforeDelete (evCode (some e)) t.uCode, p := t.p.cleanFwd t.bEx id })
         else pure s
-      -- then the parent's own processDeleteConstraints and cleanupLinks
-      let s2 ← beforeDeleteA s1 id
-      let s3 := { s2 with g := s2.g.cleanFwd s2.bEx id, rc := s2.rc.cleanFwd s2.bEx id }
-      -- DeleteEntity: the entity bucket with everything in it
-      pure { s3 with a := s3.a.erase id, g := { s3.g with fwd := s3.g.fwd.erase id },
-                     p := { s3.p with fwd := s3.p.fwd.erase id }, rc := { s3.rc with fwd := s3.rc.fwd.erase id } }
+      deleteA0Tail s1 e id
 
 /-! ### the cascading delete of `boss` referrers (`fkDeleteCascadeConstraint.ProcessBeforeDelete`) -/
 
@@ -470,8 +527,12 @@ def deleteA : Nat → List Id → State → Id → Except Err State
             let t ← beforeDeleteA t0 id
             pure { t with uCode := uniqueBeforeDelete (evCode (some e)) t.uCode, p := t.p.cleanFwd t.bEx id })
           else pure s
+        -- the extended child store: its `FindById` finds the parent entity, so this round always runs
+        let tx0 ← cascadeBoss (deleteA fuel) busy s1 id
+        let tx ← beforeDeleteA tx0 id
+        let s1x := { tx with uColour := uniqueBeforeDelete (evColour (some e)) tx.uColour }
         -- then the parent's own processDeleteConstraints and cleanupLinks
-        let s1' ← cascadeBoss (deleteA fuel) busy s1 id
+        let s1' ← cascadeBoss (deleteA fuel) busy s1x id
         let s2 ← beforeDeleteA s1' id
         let s3 := { s2 with g := s2.g.cleanFwd s2.bEx id, rc := s2.rc.cleanFwd s2.bEx id }
         -- DeleteEntity: the entity bucket with everything in it
@@ -481,11 +542,15 @@ def deleteA : Nat → List Id → State → Id → Except Err State
 /-- a delete issued by the caller: nothing is in progress; the fuel covers every entity -/
 def deleteATop (s : State) (id : Id) : Except Err State := deleteA (s.a.length + 1) [] s id
 
+/-- the cursor loop of `dep`'s cascade on store B: a dependant that an earlier iteration's own
+    cascade (through `boss`) already removed is not visited any more -/
 def deleteAll : List Id → State → Except Err State
   | [], s => .ok s
-  | id :: rest, s => match deleteATop s id with
-    | .ok s' => deleteAll rest s'
-    | .error e => .error e
+  | id :: rest, s =>
+    if !s.aEx id then deleteAll rest s
+    else match deleteATop s id with
+      | .ok s' => deleteAll rest s'
+      | .error e => .error e
 
 def createB (s : State) (id : Id) (label : Option Bytes) : Except Err State :=
   if id = [] then .error .other
@@ -532,6 +597,8 @@ def stepRaw (s : State) : Op → Except Err State
   | .updateA id v chk => updateA s id v chk
   | .deleteA id => deleteATop s id
   | .createA1 id v code pals => createA1 s id v code pals
+  | .createA2 id v colour => createA2 s id v colour
+  | .updateA2 id v colour chk cc => updateA2 s id v colour chk cc
   | .createB id l => createB s id l
   | .updateB id l chk => updateB s id l chk
   | .deleteB id => deleteB s id
@@ -569,6 +636,8 @@ def bBoss : Bytes := [98, 111, 115, 115]
 def bGroups : Bytes := [103, 114, 111, 117, 112, 115]
 def bExt1 : Bytes := [101, 120, 116, 49]
 def bCode : Bytes := [99, 111, 100, 101]
+def bExt2 : Bytes := [101, 120, 116, 50]
+def bColour : Bytes := [99, 111, 108, 111, 117, 114]
 def bLabel : Bytes := [108, 97, 98, 101, 108]
 def bMembers : Bytes := [109, 101, 109, 98, 101, 114, 115]
 def bPals : Bytes := [112, 97, 108, 115]
@@ -578,7 +647,7 @@ def bRcA : Bytes := [114, 99, 65]
 
 /-- every bucket / field name of the schema -/
 def reserved : List Bytes :=
-  [bU, bIndexes, bThings, bOwners, bName, bAlias, bRoles, bOwner, bDep, bBoss, bGroups, bExt1, bCode, bLabel, bMembers,
+  [bU, bIndexes, bThings, bOwners, bName, bAlias, bRoles, bOwner, bDep, bBoss, bGroups, bExt1, bCode, bExt2, bColour, bLabel, bMembers,
    bPals, bPalsOf, bRcB, bRcA]
 
 def idxPathA (field : Bytes) : List Bytes := [bU, bIndexes, bThings, field]
@@ -619,6 +688,9 @@ def renderA (s : State) (p : Id × EntA) : List Line :=
   (match p.2.code with
    | some c => [ .bucket (pathA p.1 ++ [bExt1]), .kv (pathA p.1 ++ [bExt1]) bCode (typed c) ] ++
                optBucket (listBucket (pathA p.1 ++ [bExt1, bPals])) (s.p.fwd.lookup p.1)
+   | none => []) ++
+  (match p.2.colour with
+   | some c => [ .bucket (pathA p.1 ++ [bExt2]), .kv (pathA p.1 ++ [bExt2]) bColour (typed c) ]
    | none => [])
 
 def renderB (s : State) (p : Id × EntB) : List Line :=
@@ -635,7 +707,7 @@ def renderSetKey (path : List Bytes) (p : Bytes × List Id) : List Line := listB
 def fixedLines : List Line :=
   [ .bucket [bU], .bucket [bU, bIndexes], .bucket [bU, bIndexes, bThings], .bucket [bU, bIndexes, bOwners],
     .bucket (idxPathA bName), .bucket (idxPathA bAlias), .bucket (idxPathA bRoles), .bucket (idxPathA bCode),
-    .bucket (idxPathB bLabel) ]
+    .bucket (idxPathA bColour), .bucket (idxPathB bLabel) ]
 
 def Render (s : State) : List Line :=
   fixedLines ++
@@ -646,6 +718,7 @@ def Render (s : State) : List Line :=
   s.uName.entries.flatMap (renderUnique (idxPathA bName)) ++
   s.uAlias.entries.flatMap (renderUnique (idxPathA bAlias)) ++
   s.uCode.entries.flatMap (renderUnique (idxPathA bCode)) ++
+  s.uColour.entries.flatMap (renderUnique (idxPathA bColour)) ++
   s.uLabel.entries.flatMap (renderUnique (idxPathB bLabel)) ++
   s.sRoles.entries.flatMap (renderSetKey (idxPathA bRoles))
 
